@@ -112,7 +112,7 @@ func SimC04(c *CheckCtx, i int, r *Rng) error {
 			for _, k := range sortedKeys(gens[gi].Rules) {
 				rule := gens[gi].Rules[k]
 				if len(rule.Render) > 0 && r.P(0.4) {
-					rule.Render = append(rule.Render, proto.Part{Text: "\nvar Lit_" + sanitize(gens[gi].Name+"_"+k) + " = "}, proto.Part{Value: Pick(r, ValueKinds)}, proto.Part{Text: "\n"})
+					rule.Render = append(rule.Render, proto.Part{Text: "\nvar Lit_" + sanitize(gens[gi].Name+"_"+k) + " = "}, proto.Part{Value: Pick(r, append([]string{"clash-values", "clash-values-int"}, ValueKinds...))}, proto.Part{Text: "\n"})
 					gens[gi].Rules[k] = rule
 				}
 			}
